@@ -501,7 +501,9 @@ impl ValidGrammar {
         let expr = distribute_descriptions(&mut grammar.arena, expr);
 
         let (mut user_specs, fallback_specs) = grammar.get_specializations(shell)?;
-        let builtin_specs = make_builtin_specializations(shell);
+        let mut builtin_specs = make_builtin_specializations(shell);
+        // A plain definition of <PATH> or <DIRECTORY> overrides the predefined meaning.
+        builtin_specs.retain(|nonterm, _| !nonterminal_definitions.contains_key(nonterm));
 
         let mut unused_nonterminals: UstrMap<HumanSpan> = nonterminal_definitions
             .iter()
